@@ -80,11 +80,18 @@ def rand_history(rng, cfg, n):
 
 
 def execute(ctx, binary, scripts, tag):
+    """one executor process per script (configuration), several at a time: the background goroutines an instance of
+    the code under test leaves behind stay within their process"""
     d = ctx.sub("run-" + tag)
-    sp = os.path.join(d, "scripts.json")
-    json.dump(scripts, open(sp, "w"))
-    ctx.run_harness(binary, ["run", sp, d], timeout=900)
-    return [read_ndjson(os.path.join(d, "trace-%03d.ndjson" % i)) for i in range(len(scripts))]
+    def one(it):
+        i, sc = it
+        sd = os.path.join(d, "s%03d" % i)
+        os.makedirs(sd, exist_ok=True)
+        sp = os.path.join(sd, "scripts.json")
+        json.dump([sc], open(sp, "w"))
+        ctx.run_harness(binary, ["run", sp, sd], timeout=900, cwd=sd)
+        return read_ndjson(os.path.join(sd, "trace-000.ndjson"))
+    return parallel(one, list(enumerate(scripts)), n=6)
 
 
 def results(h):
@@ -187,15 +194,24 @@ def judge(ctx, binary, scripts, traces, tag, seen):
         rej = None
         for kf in (0, 1):
             e2 = [dict(ev[0], kf=kf)] + ev[1:]
-            acc, rej, _ = validate_history_trace(ctx, SPEC, "DpqITrace", e2, tag="%s-i%d-%d" % (tag, i, kf), max_rounds=1, timeout=300, deque=True)
+            try:
+                acc, rej, _ = validate_history_trace(ctx, SPEC, "DpqITrace", e2, tag="%s-i%d-%d" % (tag, i, kf), max_rounds=1, timeout=400, deque=True)
+            except Broken as b:          # the search ran out of time or memory: no statement about this recording
+                return "inconclusive"
             if not rej:
                 return None
         return rej[0]
     sel = list(enumerate(traces))
-    if not ctx.thorough and tag != "cx":        # quick tier: every other recording
-        sel = sel[::2]
-    drifts = parallel(drift, sel, n=6)
-    ctx.log("%s: %d traces validated against DpqI" % (tag, len(sel)))
+    if tag != "cx":                      # every other recording in the quick tier, every fourth of the random ones in the thorough tier
+        sel = sel[::2] if not ctx.thorough or tag == "gen" else sel[::4]
+    drifts = parallel(drift, sel, n=4)
+    inconclusive = sum(1 for d in drifts if d == "inconclusive")
+    ctx.log("%s: %d traces validated against DpqI (%d inconclusive)" % (tag, len(sel), inconclusive))
+    if inconclusive == len(sel):
+        raise Broken("conformance of DpqI to the code could not be established for any %s recording (search timed out)" % tag)
+    if inconclusive:
+        ctx.notes.append("%s: %d of %d DpqI validations ran out of time (no statement)" % (tag, inconclusive, len(sel)))
+    drifts = [d for d in drifts if d != "inconclusive"]
     for d in drifts:
         if d is not None:
             ctx.cov["model_drift"] = True
@@ -319,12 +335,22 @@ def run(ctx):
     if T:
         ev = traces[0]
         ids = {e["id"] for e in ev if e["ev"] == "end" and not e["ok"]}
-        k = next(i for i, e in enumerate(ev) if e["ev"] == "begin" and e["ok"] and any(x["ev"] == "adv" for x in ev[i:i + 6]))
         bad1 = [dict(e) for e in ev]
-        for e in bad1:                      # a refused waiter recorded as let through -> more releases than the quota, or out of order
+        for e in bad1:                      # refusals recorded as releases -> more releases than the quota, or out of order
             if e.get("id") in ids and e["ev"] in ("begin", "end"):
                 e["ok"] = True
-        bad2 = [e for e in ev if not (e["ev"] == "adv" and ev.index(e) > k and ev.index(e) < k + 40)]   # clock advances dropped
+        # a request that waited for the next window and was let through: without the clock advances in between it
+        # would have been let through in the window that was already used up when it arrived
+        k = k2 = None
+        for i, e in enumerate(ev):
+            if e["ev"] == "begin" and e["ok"]:
+                j = next(x for x in range(i + 1, len(ev)) if ev[x]["ev"] == "end" and ev[x]["id"] == e["id"])
+                if any(x["ev"] == "adv" for x in ev[i:j]) and not any(x["ev"] == "reset" for x in ev[i:j]):
+                    k, k2 = i, j
+                    break
+        if k is None:
+            raise Broken("self-test: no request that waited across a clock advance in the first recording")
+        bad2 = [e for i, e in enumerate(ev) if not (e["ev"] == "adv" and k < i < k2)]
         for nm, b in (("refusals-flipped", bad1), ("advances-dropped", bad2)):
             _, rej, _ = validate_history_trace(ctx, SPEC, "DpqTrace", b, tag="self-" + nm, max_rounds=1, deque=True)
             if not rej:
